@@ -27,6 +27,15 @@ def registry(lib):
         c = t["callee"]
         if c == "runtime::Runtime::register_function":
             name_t = o.of_operand(t["args"][1])
+            tab = _table_rows(name_t, o.of_operand(t["args"][2]), b, o)
+            if tab is not None:
+                # registration driven by a table: `for (name, f) in [("abs", Box::new(AbsFn::new())), ..] { register_function(name, f) }`
+                for nm, tys, why in tab:
+                    if why:
+                        problems.append(f"bb{blk}: {why}")
+                    else:
+                        out.append((nm, tys, blk))
+                continue
             names = [x[1] for x in name_t if x[0] == "const"]
             if len(names) != 1 or len(name_t) != 1:
                 problems.append(f"bb{blk}: registered name is not a single string literal: {fmt_terms(name_t)}")
@@ -52,9 +61,74 @@ def registry(lib):
             pass
         elif c.startswith("std::boxed::Box::<T>::new"):
             pass
+        elif c in ("std::iter::IntoIterator::into_iter", "std::iter::Iterator::next") or c.startswith("std::boxed::box_assume_init") or \
+                re.match(r"^(core|std)::slice::<impl \[T\]>::(iter|into_vec)$", c) or c.endswith("::into_vec") or re.match(r"^std::vec::Vec::<T, A>::(into_iter|iter)$", c):
+            pass    # iterating a table of (name, function) rows
         else:
             problems.append(f"bb{blk}: unexpected call {c} in register_builtin_functions")
     return out, problems
+
+
+def _table_rows(name_terms, fn_terms, body=None, o=None):
+    """If the name is field 0 and the function field 1 of an element of one literal array of pairs:
+    [(name, impl type, problem-or-None)], else None."""
+    def base_of(terms, idx):
+        bases = set()
+        for x in terms:
+            if x[0] == "field" and x[2] == str(idx) and x[1][0] == "elem":
+                y = x[1][1]
+                while y[0] in ("iter", "call") and y[0] != "agg":
+                    if y[0] == "iter":
+                        y = y[1]
+                    elif y[0] == "call" and (y[1].endswith("box_assume_init_into_vec_unsafe") or y[1].endswith("::into_vec")):
+                        break   # the vec![..] value itself
+                    elif y[0] == "call" and len(y[2]) >= 1 and len(y[2][0]) == 1:
+                        y = next(iter(y[2][0]))
+                    else:
+                        break
+                bases.add(y)
+            else:
+                return None
+        return bases
+    nb, fb = base_of(name_terms, 0), base_of(fn_terms, 1)
+    if not nb or nb != fb or len(nb) != 1:
+        return None
+    arr = next(iter(nb))
+    if arr[0] == "agg" and arr[1] == "array":
+        items = arr[2]
+    elif body is not None:
+        # a `vec![(..), ..]` table
+        try:
+            items = _vec_items(body, o, {arr})
+        except SigError:
+            items = None
+        if not items:
+            return None
+    else:
+        return None
+    rows = []
+    for ops in items:
+        for tup in ops:
+            if not (tup[0] == "agg" and tup[1] == "tuple" and len(tup[2]) == 2):
+                rows.append(("?", "?", f"table row is not a (name, function) pair: {fmt_terms([tup])[:60]}"))
+                continue
+            names = [x[1] for x in tup[2][0] if x[0] == "const"]
+            if len(names) != 1 or len(tup[2][0]) != 1:
+                rows.append(("?", "?", f"table row name is not a single string literal: {fmt_terms(tup[2][0])[:60]}"))
+                continue
+            m = re.match(r'^"(.*)"$', names[0])
+            nm = m.group(1) if m else names[0]
+            tys = set()
+            for x in tup[2][1]:
+                if x[0] == "call" and x[1].endswith("::new"):
+                    tys.add(x[1][: -len("::new")])
+                else:
+                    tys.add("?" + fmt_terms([x])[:40])
+            if len(tys) != 1 or next(iter(tys)).startswith("?"):
+                rows.append((nm, "?", f"function value for {nm!r} is not `T::new()`"))
+            else:
+                rows.append((nm, next(iter(tys)), None))
+    return rows
 
 
 def _vec_items(body, o, terms):
